@@ -119,6 +119,10 @@ func runDangling(run *vc.Run, dir string, n int) {
 			o := gen.Opts{Profile: prof}
 			base := gen.Generate(run.Rand(2, uint64(i)), id, o)
 			mutant := gen.Generate(run.Rand(2, uint64(i)), id, o) // same stream: an identical, independent copy
+			if prof == "grpc" {
+				// gen's grpc profile does not assign field tags yet (goa rejects its designs): own small gRPC designs
+				base, mutant = chaos.GRPCSpec(run.Rand(2, uint64(i)), id), chaos.GRPCSpec(run.Rand(2, uint64(i)), id)
+			}
 			m := chaos.PickMutation(run.Rand(3, uint64(i)), chaos.Mutations(mutant))
 			if m == nil {
 				continue
